@@ -28,6 +28,9 @@ fn custom_splitter(word: &str) -> Vec<usize> {
 fn custom_all(word: &str) -> Vec<usize> {
     word.char_indices().map(|(i, _)| i).filter(|i| *i > 0).collect()
 }
+fn custom_last(word: &str) -> Vec<usize> {
+    word.char_indices().map(|(i, _)| i).filter(|i| *i > 0).last().into_iter().collect()
+}
 fn custom_first(word: &str) -> Vec<usize> {
     word.char_indices().map(|(i, _)| i).filter(|i| *i > 0).take(1).collect()
 }
@@ -102,6 +105,8 @@ fn parse_split(t: &str) -> WordSplitter {
         WordSplitter::Custom(custom_all)
     } else if t == "C2" {
         WordSplitter::Custom(custom_first)
+    } else if t == "C3" {
+        WordSplitter::Custom(custom_last)
     } else if t.starts_with('C') {
         // C or C:<wordhex>=<p>,<p>/<wordhex>=...
         SPLITS.with(|s| {
